@@ -5,6 +5,7 @@
 #include "predicate.h"
 #include "typedef_type.h"
 #include "enum_type.h"
+#include <unordered_set>
 #include "constructor.h"
 #include "method.h"
 #include "conjunction.h"
@@ -478,13 +479,31 @@ namespace ratio
         {
             if (!type_refs.empty())
             {
-                enum_type *et = static_cast<enum_type *>(&scp.get_type(name.id));
+                enum_type *et = dynamic_cast<enum_type *>(&scp.get_type(name.id));
+                if (!et)
+                    throw std::invalid_argument("`" + name.id + "` is not an enum type..");
                 for (const auto &tr : type_refs)
                 {
                     scope *s = &scp;
                     for (const auto &id_tk : tr)
                         s = &s->get_type(id_tk.id);
-                    et->enums.emplace_back(static_cast<enum_type *>(s));
+                    enum_type *ref = dynamic_cast<enum_type *>(s);
+                    if (!ref)
+                        throw std::invalid_argument("`" + tr.back().id + "` is not an enum type..");
+                    // the values of an enum include those of the enums it refers to: the references cannot be cyclic..
+                    std::vector<const enum_type *> stack{ref};
+                    std::unordered_set<const enum_type *> seen;
+                    while (!stack.empty())
+                    {
+                        const enum_type *c_et = stack.back();
+                        stack.pop_back();
+                        if (c_et == et)
+                            throw std::invalid_argument("cyclic definition of enum `" + name.id + "`..");
+                        if (seen.insert(c_et).second)
+                            for (const auto &e : c_et->enums)
+                                stack.push_back(e);
+                    }
+                    et->enums.emplace_back(ref);
                 }
             }
         }
